@@ -167,7 +167,7 @@ var SpecialContents = func() []string {
 		}
 	}
 	// short structured contents, and contents with white space at either end
-	for _, c := range []string{"[::1]:1883", "host:1883", "[a", "a]", "a=b", "k: v", "<a>", "a;b", "a@b", "\\n", "\r", "\r\n", "a\n", "a\r\n", "a ", " a", "a\tb", "a  b"} {
+	for _, c := range []string{"[::1]:1883", "host:1883", "[a", "a]", "a=b", "k: v", "<a>", "a;b", "a@b", "\\n", "\r", "\r\n", "a\n", "a\r\n", "a ", " a", "a\tb", "a  b", "\x1b[", "\x1b[31mred\x1b[0m", "a\x7f"} {
 		if !seen[c] {
 			s = append(s, c)
 			seen[c] = true
